@@ -90,4 +90,34 @@ def fault_list(d):
                       lambda r, key=key, rn=rn: r["sensor_noises"][key].__setitem__(rn + "_x", r["sensor_noises"][key].pop(rn))))
         F.append(("sensor-noise", f"extra reading noise in {key}", "ekf", lambda r, key=key: r["sensor_noises"][key].__setitem__("ghost", 0.5)))
     F.append(("sensor-noise", "noise for a sensor that does not exist", "ekf", lambda r: r["sensor_noises"].__setitem__("ghost", {"g": 0.5})))
+    # 7. near-miss spellings of keys (a fragment, another case, two names glued together): a by-name check done on a joined
+    # string, by prefix, case-insensitively or by count accepts these
+    def near(name, others):
+        cands = [name[:-1], name[1:], name[0], name.upper(), name.lower(), name + name, ", ".join([name] + others[:1]), name + " "]
+        out = []
+        for c_ in cands:
+            if c_ and c_ != name and c_ not in others and c_ not in out:
+                out.append(c_)
+        return out
+
+    for key, rs in d["sensors"]:
+        rns = [rn for rn, _ in rs]
+        for rn in rns:
+            for alt in near(rn, [x for x in rns if x != rn]):
+                F.append(("sensor-noise", f"noise of {key}.{rn} given under the near-miss name {alt!r}", "ekf",
+                          lambda r, key=key, rn=rn, alt=alt: r["sensor_noises"][key].__setitem__(alt, r["sensor_noises"][key].pop(rn))))
+        keys = [k_ for k_, _ in d["sensors"]]
+        for alt in near(key, [x for x in keys if x != key]):
+            F.append(("sensor-noise", f"noise of sensor {key} given under the near-miss key {alt!r}", "ekf",
+                      lambda r, key=key, alt=alt: r["sensor_noises"].__setitem__(alt, r["sensor_noises"].pop(key))))
+    for c in ct:
+        for alt in near(c, [x for x in ct + st + ca if x != c]):
+            if alt.isidentifier():
+                F.append(("process-noise", f"noise of {c} given under the near-miss name {alt!r}", "ekf",
+                          lambda r, c=c, alt=alt: r["process_noise"].__setitem__(Sy(alt), r["process_noise"].pop(Sy(c)))))
+    for c in ca:
+        for alt in near(c, [x for x in ct + st + ca if x != c]):
+            if alt.isidentifier():
+                F.append(("calibration-map", f"value of {c} given under the near-miss name {alt!r}", "model",
+                          lambda r, c=c, alt=alt: r["calibration_map"].__setitem__(Sy(alt), r["calibration_map"].pop(Sy(c)))))
     return F
